@@ -74,34 +74,36 @@ theorem glue_invariant (pts : List (List ℚ)) {f : List ℚ → List ℚ} (hf :
     M.dcfGlue (pts.map f) ((M.uniquePts (pts.map f)).map V') = M.dcfGlue pts ((M.uniquePts pts).map V) :=
   M.dcfGlue_invariant pts hf V V' hV
 
-/-! ### Partially broadcast trajectories (`DcfData.from_traj_voronoi`): which layouts give weights of the degree of a cell volume
+/-! ### Partially broadcast trajectories (`DcfData.from_traj_voronoi`): the weights have the degree of a cell volume
 
 `M.DcfLayout` models how the code decomposes a trajectory into 1-D factors and one joint tessellation; the harness checks that
 the exponent measured on the real code (scaling k-space by 2) is `degree` for every layout it draws. -/
 
-/-- **scaling with |a|^d holds exactly for the layouts in which no direction is counted twice** (all 512 layouts) -/
-theorem layout_degree_iff : ∀ a b c d e f g h i : Bool,
-    (M.DcfLayout.degree (M.DcfLayout.ofFlags a b c d e f g h i) = M.DcfLayout.dEnc (M.DcfLayout.ofFlags a b c d e f g h i))
-      ↔ M.DcfLayout.wellFormed (M.DcfLayout.ofFlags a b c d e f g h i) = true := M.DcfLayout.degree_eq_dEnc_iff
+/-- **scaling with |a|^d for every layout** (all 512, kernel evaluation): every direction with an extent enters the product once -/
+theorem layout_degree : ∀ a b c d e f g h i : Bool,
+    M.DcfLayout.degree (M.DcfLayout.ofFlags a b c d e f g h i) = M.DcfLayout.dEnc (M.DcfLayout.ofFlags a b c d e f g h i) :=
+  M.DcfLayout.degree_eq_dEnc
+theorem layout_count : ∀ a b c d e f g h i : Bool, ∀ j : Fin 3,
+    M.DcfLayout.count (M.DcfLayout.ofFlags a b c d e f g h i) j.val
+      = (if (List.range 3).any (fun dd => M.DcfLayout.varies (M.DcfLayout.ofFlags a b c d e f g h i) j.val dd) then 1 else 0) :=
+  M.DcfLayout.count_eq
 
-/-- the exponent of the code is the sum over the directions of how often each enters the product, and is never too small -/
-theorem layout_degree_sum : ∀ a b c d e f g h i : Bool,
-    M.DcfLayout.degree (M.DcfLayout.ofFlags a b c d e f g h i)
-      = M.DcfLayout.count (M.DcfLayout.ofFlags a b c d e f g h i) 0 + M.DcfLayout.count (M.DcfLayout.ofFlags a b c d e f g h i) 1
-        + M.DcfLayout.count (M.DcfLayout.ofFlags a b c d e f g h i) 2 := M.DcfLayout.degree_eq_sum
-theorem layout_degree_ge : ∀ a b c d e f g h i : Bool,
-    M.DcfLayout.dEnc (M.DcfLayout.ofFlags a b c d e f g h i) ≤ M.DcfLayout.degree (M.DcfLayout.ofFlags a b c d e f g h i) := M.DcfLayout.dEnc_le_degree
+/-- the decomposition as shipped had that degree exactly where it counted no direction twice (and never a smaller one); there
+the repaired decomposition is the same -/
+theorem layout_shipped_degree_iff : ∀ a b c d e f g h i : Bool,
+    (M.DcfLayout.degreeShipped (M.DcfLayout.ofFlags a b c d e f g h i) = M.DcfLayout.dEnc (M.DcfLayout.ofFlags a b c d e f g h i))
+      ↔ M.DcfLayout.wellFormedShipped (M.DcfLayout.ofFlags a b c d e f g h i) = true := M.DcfLayout.degreeShipped_eq_dEnc_iff
+theorem layout_repair_conservative : ∀ a b c d e f g h i : Bool,
+    M.DcfLayout.wellFormedShipped (M.DcfLayout.ofFlags a b c d e f g h i) = true →
+      M.DcfLayout.degree (M.DcfLayout.ofFlags a b c d e f g h i) = M.DcfLayout.degreeShipped (M.DcfLayout.ofFlags a b c d e f g h i)
+      ∧ ∀ j : Fin 3, M.DcfLayout.count (M.DcfLayout.ofFlags a b c d e f g h i) j.val = M.DcfLayout.countShipped (M.DcfLayout.ofFlags a b c d e f g h i) j.val :=
+  M.DcfLayout.repaired_agrees_where_shipped_was_right
 
-/-- dense, fully separable and stack-of-2D layouts are well formed -/
-theorem layout_usual_wellFormed : M.DcfLayout.wellFormed (M.DcfLayout.ofFlags true true true true true true true true true) = true
-    ∧ M.DcfLayout.wellFormed (M.DcfLayout.ofFlags true false false false true false false false true) = true
-    ∧ M.DcfLayout.wellFormed (M.DcfLayout.ofFlags false false false false true true false true true) = true := M.DcfLayout.dense_wellFormed
-
-/-- KNOWN FINDING (witness): a direction alone along one dimension that also varies along another one is counted twice -/
-theorem layout_double_counted_witness :
-    M.DcfLayout.degree (M.DcfLayout.ofFlags true false false false true true true false true) = 4
+/-- witness of the repaired defect: a direction alone along one dimension that also varies along another one was counted twice -/
+theorem layout_shipped_double_counted_witness :
+    M.DcfLayout.degreeShipped (M.DcfLayout.ofFlags true false false false true true true false true) = 4
     ∧ M.DcfLayout.dEnc (M.DcfLayout.ofFlags true false false false true true true false true) = 3
-    ∧ M.DcfLayout.degree (M.DcfLayout.ofFlags true false true false false false false false false) = 2
-    ∧ M.DcfLayout.dEnc (M.DcfLayout.ofFlags true false true false false false false false false) = 1 := M.DcfLayout.double_counted_witness
+    ∧ M.DcfLayout.degreeShipped (M.DcfLayout.ofFlags true false true false false false false false false) = 2
+    ∧ M.DcfLayout.dEnc (M.DcfLayout.ofFlags true false true false false false false false false) = 1 := M.DcfLayout.shipped_double_counted_witness
 
 end C16
